@@ -3,7 +3,8 @@
 //
 // Script events (inputs) and what the driver adds (observations):
 //
-//   reset  {limit, chunk, etc, ext}         one fresh directory per execution (/c25/x<n>/ or /etc/c25/x<n>/)
+//   reset  {limit, cipher, chunk, etc, ext}  one fresh directory per execution (/c25/x<n>/ or /etc/c25/x<n>/);
+//          limit (SaveToFilerLimit) and cipher (chunks encrypted) select the driver process (--limit, --cipher)
 //   write  {p, m: put|post|postdir, op: set|append, s, n, kind: rand|text, te, maxmb,
 //           fail: -1|j, fm: ""|reader|cut|cutte}
 //          -> st (HTTP status, 0 = no response / transport error), err (text, informational)
@@ -286,6 +287,11 @@ func (r *run) create(e tr.Ev) {
 				continue
 			}
 			if n == 0 {
+				if how == "grpcappend" { // an append of nothing still makes the entry
+					if _, err := cl.AppendToEntry(ctx, &filer_pb.AppendToEntryRequest{Directory: r.dir, EntryName: name}); err != nil {
+						return err
+					}
+				}
 				continue
 			}
 			av, err := cl.AssignVolume(ctx, &filer_pb.AssignVolumeRequest{Count: 1, Path: r.dir + "/" + name})
@@ -379,8 +385,9 @@ func (r *run) get(e tr.Ev) {
 
 func main() {
 	limit := flag.Int64("limit", 0, "SaveToFilerLimit of the filer")
+	cipher := flag.Bool("cipher", false, "filer encrypts the chunks")
 	o := tr.ParseFlags()
-	c, err := cluster.New(cluster.Options{Volumes: 1, Filer: true, MaxMB: 1, SaveToFilerLimit: *limit,
+	c, err := cluster.New(cluster.Options{Volumes: 1, Filer: true, MaxMB: 1, SaveToFilerLimit: *limit, Cipher: *cipher,
 		FilerHTTPWrap: func(h http.Handler) http.Handler {
 			return http.HandlerFunc(func(w http.ResponseWriter, r *http.Request) {
 				atomic.AddInt64(&inflight, 1)
@@ -416,8 +423,8 @@ func main() {
 	}
 	for x, ex := range tr.ReadScript(o.Script) {
 		reset := ex[0]
-		if int64(tr.I(reset, "limit")) != *limit {
-			continue // an execution for the other configuration (other driver process)
+		if int64(tr.I(reset, "limit")) != *limit || tr.B(reset, "cipher") != *cipher {
+			continue // an execution for another configuration (other driver process)
 		}
 		r := &run{c: c, w: w, x: x, segs: map[int][]byte{}, hc: hc, ext: tr.S(reset, "ext")}
 		r.dir = fmt.Sprintf("/c25/x%d", x)
